@@ -116,6 +116,8 @@ pub enum TxKind {
     Deploy { sender: u8, prog: DeployProg },
     Call { sender: u8, target: Target, by_inscription: bool, data: Cd },
     Transact { signer: u8, nonce: NonceSpec, to: Option<Target>, data: Cd, deploy: Option<DeployProg>, chain_ok: bool },
+    /// the byte-identical signed transaction that was sent as transaction `of` (a re-inscription)
+    Resend { of: u32 },
     Deposit { to: Who, ticker: u8, amount: Amount },
     Withdraw { from: Who, ticker: u8, amount: Amount },
 }
